@@ -93,7 +93,7 @@ var c04Sources = []string{
 	`Add(1)`, `Add(1, 2, 3)`, `Add("a", 2)`, `Add(nil, nil)`, `Upper(1)`, `Upper(nil)`, `NotFn()`, `NotFn(1)`, `I()`, `S.f()`, `Missing()`, `Missing.x`, `Missing`,
 	`nil`, `nil.x`, `nil()`, `nil[0]`, `nil + nil`, `-nil`, `not nil`, `nil ? nil : nil`, `nil ?: 1`, `[nil][0].x`, `{a: nil}.a.b`, `len(nil)`, `all(nil, {#})`, `map(nil, {#})`, `filter(I, {#})`, `count(Ints, {I})`,
 	`#`, `.x`, `{#}`, `all(Ints, #)`, `all(Ints, {#.x})`, `map(Ints, {#?.x})`, `map(Ints, {NilPtr?.N})`, `map(Ints, {nil})`, `filter(Ints, {nil})`, `one(Ints, {1})`,
-	`I ? 1 : 2`, `B ? I : S`, `B ? nil : nil`, `B ?: I`, `(B ? NilPtr : Obj).N`, `(B ? nil : Obj)?.N`,
+	`!B ?: B`, `-I ?: 1`, `(I + 1) ?: 2`, `I ? 1 : 2`, `B ? I : S`, `B ? nil : nil`, `B ?: I`, `(B ? NilPtr : Obj).N`, `(B ? nil : Obj)?.N`,
 	`I == S`, `I < S`, `S + I`, `B + B`, `I and B`, `I in I`, `S in S`, `S contains I`, `I startsWith S`, `I matches I`, `[1] + [2]`, `{a: 1} == {a: 1}`, `M == M`, `Ints == Ints`, `Add == Add`, `PanicFn == nil`,
 	`PanicCE(1)`, `PanicCE(I)`, `Upper("a" + "b")`, `Upper(S)`, `I + 1 + 2`, `I - J`, `I * BadOp(2)`,
 	``, ` `, `(`, `)`, `()`, `[`, `{`, `{a}`, `{a:}`, `{:1}`, `{1 2}`, `[1 2]`, `1 2`, `a b`, `a.`, `a?.`, `a..b..c`, `1...2`, `a ? b`, `a ? : c`, `a ? b : `, `f(`, `f(,)`, `f(1,)`, `len()`, `len(1, 2)`, `all(Ints)`, `all(Ints, 1)`, `not`, `not in`, `1 not in`, `1 in`, `in 1`, `**`, `1 ** `, `- - - 1`, `!!!B`, `a[`, `a[:`, `a[:]`, `a[1:2:3]`, `a.1`, `a."b"`, `a.not`, `a.in.b`, `$`, `_`, `@`, "a\x00b", "\xff\xfe", "é + ü", "a\nb", "a /* c */ b", "a // b",
